@@ -83,14 +83,16 @@ BadRanges(r) == IF Ok(r) THEN {r.ranges[i][1] : i \in {j \in 1..Len(r.ranges) : 
 (*   def = [loc, isIdent, txt],                                            *)
 (*   refs = [loc, isIdent, txt, def (go-to-definition from that ref)]*     *)
 (***************************************************************************)
-IdentOk(x) ==
-   /\ x.def.isIdent /\ x.def.txt = x.txt                               \* (1) target is an identifier with the same text
-   /\ \A j \in 1..Len(x.refs) : x.refs[j].isIdent /\ x.refs[j].txt = x.txt   \* (2) so is every reference
-   /\ \A j \in 1..Len(x.refs) : x.refs[j].def = x.def.loc              \* (3) each reference leads to the same target
-   /\ (x.nrefs = Len(x.refs)) =>                                       \* (4) the cursor is the target or a reference
-         (x.loc = x.def.loc \/ \E j \in 1..Len(x.refs) : x.refs[j].loc = x.loc)
+TargetIsSameIdent(x)  == x.def.isIdent /\ x.def.txt = x.txt                                       \* (1)
+RefsAreSameIdent(x)   == \A j \in 1..Len(x.refs) : x.refs[j].isIdent /\ x.refs[j].txt = x.txt      \* (2)
+RefsLeadToTarget(x)   == \A j \in 1..Len(x.refs) : x.refs[j].def = x.def.loc                        \* (3)
+CursorIsTargetOrRef(x) == (x.nrefs = Len(x.refs)) =>                                                \* (4) (all refs recorded)
+                             (x.loc = x.def.loc \/ \E j \in 1..Len(x.refs) : x.refs[j].loc = x.loc)
 CoherentClauses(r) == <<
-   <<"definition-and-references-coherent", Ok(r) => \A i \in 1..Len(r.idents) : IdentOk(r.idents[i])>>
+   <<"target-is-identifier-with-same-text", Ok(r) => \A i \in 1..Len(r.idents) : TargetIsSameIdent(r.idents[i])>>,
+   <<"references-are-identifiers-with-same-text", Ok(r) => \A i \in 1..Len(r.idents) : RefsAreSameIdent(r.idents[i])>>,
+   <<"references-lead-to-the-same-target", Ok(r) => \A i \in 1..Len(r.idents) : RefsLeadToTarget(r.idents[i])>>,
+   <<"cursor-is-target-or-reference", Ok(r) => \A i \in 1..Len(r.idents) : CursorIsTargetOrRef(r.idents[i])>>
  >>
 
 Failed(clauses) == {clauses[i][1] : i \in {j \in 1..Len(clauses) : ~clauses[j][2]}}
